@@ -87,7 +87,7 @@ def gen_history(rng, kind=None):
     raw_t1 = {}
     if kind == "switch-state-reordered" and rng.random() < 0.8:
         raw_t1 = {"relax_cap": rng.choice([1, 1, 2, 3])}
-    return {"world": world, "cfg": base, "ops": ops, "kind": kind, "variant": variant, "raw_t1": raw_t1}
+    return {"world": world, "cfg": base, "ops": ops, "kind": kind, "variant": variant, "raw_t1": raw_t1, "now_unset": rng.random() < (0.5 if kind.startswith("cfg:now") else 0.15)}
 
 
 class CountingCache:
@@ -306,6 +306,7 @@ def check_history(case, sess: Session):
                     continue
                 turn_no += 1
                 now_ms = NOW_MS + int(holder.get("now_shift_days", 0) * 86400000)
+                now_arg = None if case.get("now_unset") else "auto"  # the caller supplies only the millisecond clock
                 plan = None
                 pend = holder.pop("pending", None)
                 extra_turn = None
@@ -337,7 +338,7 @@ def check_history(case, sess: Session):
                         # an intermediate turn with other text: commits (or runs with the kill switch off) between the two asks
                         was = env.cfg["t4"].get("enabled", True)
                         env.cfg["t4"]["enabled"] = extra_turn["t4"]
-                        env.run(op["agent"], "intermediate turn text", 900 + turn_no, now_ms=now_ms, plan=extra_turn["plan"])
+                        env.run(op["agent"], "intermediate turn text", 900 + turn_no, now_ms=now_ms, now=now_arg, plan=extra_turn["plan"])
                         env.cfg["t4"]["enabled"] = was
                     if name == "C" and t2c._T2_CACHE is not None and not isinstance(t2c._T2_CACHE, CountingCache):
                         t2c._T2_CACHE = CountingCache(t2c._T2_CACHE)
@@ -362,7 +363,7 @@ def check_history(case, sess: Session):
                         else:
                             env.cfg["scheduler"]["enabled"] = False
                     with patched(orch, "t1_propagate", t1w), patched(core, "make_plan_bundle", mpb):
-                        r = env.run(op["agent"], op["text"], turn_no, now_ms=now_ms)
+                        r = env.run(op["agent"], op["text"], turn_no, now_ms=now_ms, now=now_arg)
                     h1 = t2c._T2_CACHE.hits if isinstance(t2c._T2_CACHE, CountingCache) else 0
                     rec2 = env.records("t2.jsonl")[-1] if env.records("t2.jsonl") else {}
                     res[name] = {"r": r, "t1": cap.get("t1"), "t2": cap.get("t2"), "t2_stage_hits": h1 - h0, "turn_hit": bool(rec2.get("cache_hit"))}
@@ -370,7 +371,7 @@ def check_history(case, sess: Session):
                 sess.count("twin_turns")
                 if oi == len(case["ops"]) - 1:
                     sess.sample({"mutation_kind": kind, "cache_variant": case["variant"], "cfg": case["cfg"], "ops": case["ops"]})
-                tcase = {"world": case["world"], "cfg": case["cfg"], "ops": case["ops"][:oi + 1], "kind": kind, "variant": case["variant"], "raw_t1": raw_t1}
+                tcase = {"world": case["world"], "cfg": case["cfg"], "ops": case["ops"][:oi + 1], "kind": kind, "variant": case["variant"], "raw_t1": raw_t1, "now_unset": case.get("now_unset")}
                 c, u = res["C"], res["U"]
                 if c["r"]["exc"] or u["r"]["exc"]:
                     if bool(c["r"]["exc"]) != bool(u["r"]["exc"]):
